@@ -485,6 +485,7 @@ func c03Scenario(name string) func() explore.SchedOutcome {
 		}
 		base := c03Baseline(wd, sentinel)
 		var hostiles []*vnet.Conn
+		var listID uint32
 		kind, flood := name, c03Flood
 		if name == "SC6s" { // the same scenario with fewer pending replies, explored one deviation deeper
 			kind, flood = "SC6", 30
@@ -582,6 +583,12 @@ func c03Scenario(name string) func() explore.SchedOutcome {
 			h.Req(ref.TMakeFileAlias, ref.FS(ref.FFileName, "dir"), ref.F(ref.FFileNewPath, ref.PathBytes("dir"))) // dir/dir -> dir
 			world.Settle(5 * time.Second)
 			base = ""
+		case "SC9": // a client deletes a file while the sentinel asks for the list of that folder
+			h, _ := wd.Connect("10.0.0.66:6666", "admin", "secret", "hh")
+			hostiles = append(hostiles, h.Conn)
+			base = ""
+			h.Send(ref.Tx{Type: ref.TDeleteFile, Fields: []ref.Fld{ref.FS(ref.FFileName, "f.txt")}})
+			listID = sentinel.Send(ref.Tx{Type: ref.TGetFileNameList})
 		case "SC5": // a client that disconnects while a broadcast to it is in flight
 			g, _ := wd.Connect("10.0.0.9:1009", "admin", "secret", "adm")
 			base = c03Baseline(wd, sentinel)
@@ -595,6 +602,9 @@ func c03Scenario(name string) func() explore.SchedOutcome {
 		vrt.Settle(20 * time.Second)
 		if sentinel.Reply(sid) == nil {
 			fail("sentinel-not-answered", fmt.Sprintf("blocked: %v", vrt.Blocked()))
+		}
+		if listID != 0 && sentinel.Reply(listID) == nil {
+			fail("sentinel-file-list-not-answered", "the list of a folder in which another client deletes a file at the same moment")
 		}
 		if kind == "SC4" || kind == "SC6" {
 			// the deaf client holds senders to itself blocked; everybody else must still be served
@@ -646,7 +656,7 @@ func c03Scenario(name string) func() explore.SchedOutcome {
 	}
 }
 
-var c03Scenarios = []string{"SC1", "SC2", "SC3", "SC4", "SC5", "SC6", "SC6s", "SC6r", "SC7", "SC8"}
+var c03Scenarios = []string{"SC1", "SC2", "SC3", "SC4", "SC5", "SC6", "SC6s", "SC6r", "SC7", "SC8", "SC9"}
 
 // c03Flood is the number of requests the deaf client of SC6 sends (each leaves one reply pending for it).
 var c03Flood = 300
